@@ -56,6 +56,11 @@ package allocator
 //@   ensures err == nil && !json_map_nil(doc(data), "allocated") ==> forall s string :: s in a.allocated ==> a.allocated[s] == json_strmap_val(doc(data), "allocated")[s]
 //@   ensures err == nil ==> bigval(a.allocatedCount) == card(a.allocated)
 //@   ensures err == nil ==> a.prefixLen == json_int(doc(data), "prefix_length")
+// the restored allocator carries the whole configuration NewIPAllocator derives from the document's
+// base_network / prefix_length (alloc is that freshly built allocator): every later answer,
+// including the next snapshot's base_network, depends on it
+//@   ensures err == nil ==> a.baseIP == alloc.baseIP && a.baseMask == alloc.baseMask && a.poolPrefix == alloc.poolPrefix && a.isIPv6 == alloc.isIPv6
+//@   ensures err == nil ==> a.totalPrefixes == alloc.totalPrefixes && a.step == alloc.step && a.prefixLen == alloc.prefixLen
 
 //@ loop IPAllocator.UnmarshalJSON#1
 //@   invariant alloc != nil && alloc != a && alloc.nonnil && alloc.distinct && alloc.total
